@@ -64,3 +64,58 @@ case("c04-twin-extra-validation", "C04", CS,
      "            signature_point = signature_to_G2(signature)\n            if not subgroup_check(signature_point):\n                return False\n            final_exponentiation",
      "            signature_point = signature_to_G2(signature)\n            if not subgroup_check(signature_point):\n                return False\n            if len(signature) != 96:\n                return False\n            final_exponentiation", expect="silent")
 case("c04-twin-len-form", "C04", CS, "len(pubkey) == 48", "48 == len(pubkey)", expect="silent")
+
+# ---------------------------------------------------------------- C01
+case("c01-privkey-le-order", "C01", CS, "privkey > 0 and privkey < curve_order", "privkey > 0 and privkey <= curve_order", rule="C01.R2")
+case("c01-privkey-no-upper", "C01", CS, "privkey > 0 and privkey < curve_order", "privkey > 0")
+case("c01-privkey-ge-zero", "C01", CS, "privkey > 0 and", "privkey >= 0 and")
+case("c01-privkey-no-isinstance", "C01", CS, "return isinstance(privkey, int) and privkey > 0", "return privkey > 0")
+case("c01-coresign-no-gate", "C01", CS,
+     "        if not cls._is_valid_privkey(SK):\n            raise ValidationError(\"Invalid secret key\")\n", "", rule="C01.R1")
+case("c01-sktopk-return-instead-of-raise", "C01", CS,
+     "        if not cls._is_valid_privkey(privkey):\n            raise ValidationError(\"Invalid private key\")",
+     "        if not cls._is_valid_privkey(privkey):\n            return BLSPubkey(b\"\")")
+case("c01-sktopk-raises-valueerror", "C01", CS,
+     "            raise ValidationError(\"Invalid private key\")", "            raise ValueError(\"Invalid private key\")")
+case("c01-keygen-if-not-while", "C01", CS, "        while SK == 0:", "        if SK == 0:", rule="C01.R3")
+case("c01-keygen-plus-one", "C01", CS, "            SK = os2ip(okm) % curve_order\n        return SK", "            SK = os2ip(okm) % curve_order\n        return SK + 1")
+case("c01-keygen-wrong-modulus", "C01", CS, "SK = os2ip(okm) % curve_order", "SK = os2ip(okm) % (curve_order + 1)")
+case("c01-popverify-uses-dst", "C01", CS, "        return cls._CoreVerify(PK, PK, proof, cls.POP_TAG)", "        return cls._CoreVerify(PK, PK, proof, cls.DST)")
+case("c01-aug-sign-suffix", "C01", CS, "        return cls._CoreSign(SK, PK + message, cls.DST)", "        return cls._CoreSign(SK, message + PK, cls.DST)")
+case("c01-verify-pairs-wrong-sign", "C01", CS, "                    neg(pubkey_to_G1(PK)),", "                    pubkey_to_G1(PK),")
+case("c01-twin-bounds-rewritten", "C01", CS, "privkey > 0 and privkey < curve_order", "1 <= privkey <= curve_order - 1", expect="silent")
+case("c01-twin-chained", "C01", CS, "privkey > 0 and privkey < curve_order", "0 < privkey < curve_order", expect="silent")
+case("c01-twin-keygen-neq", "C01", CS, "        while SK == 0:", "        while not SK != 0:", expect="silent")
+# ---------------------------------------------------------------- C02
+case("c02-return-true-on-identity", "C02", CS,
+     "            if not subgroup_check(signature_point):\n                return False\n            final_exponentiation",
+     "            if not subgroup_check(signature_point):\n                return False\n            if is_inf(signature_point):\n                return True\n            final_exponentiation", rule="C02.R1")
+case("c02-except-returns-true", "C02", CS,
+     "            return final_exponentiation == FQ12.one()\n        except (ValidationError, ValueError, AssertionError):\n            return False",
+     "            return final_exponentiation == FQ12.one()\n        except (ValidationError, ValueError, AssertionError):\n            return True")
+case("c02-neq", "C02", CS, "            return final_exponentiation == FQ12.one()", "            return final_exponentiation != FQ12.one()")
+case("c02-pop-tag-equals-dst", "C02", CS, '    POP_TAG = b"BLS_POP_BLS12381G2_XMD:SHA-256_SSWU_RO_POP_"', "    POP_TAG = DST", rule="C02.R2")
+case("c02-suite-loses-dst", "C02", CS, '    DST = b"BLS_SIG_BLS12381G2_XMD:SHA-256_SSWU_RO_AUG_"\n', "", rule="C02.R2")
+case("c02-popverify-dst", "C02", CS, "        return cls._CoreVerify(PK, PK, proof, cls.POP_TAG)", "        return cls._CoreVerify(PK, PK, proof, cls.DST)", rule="C02.R2")
+case("c02-aug-verify-no-prefix", "C02", CS, "        return cls._CoreVerify(PK, PK + message, signature, cls.DST)", "        return cls._CoreVerify(PK, message, signature, cls.DST)", rule="C02.R3")
+case("c02-aug-both-suffix", "C02", CS, "        return cls._CoreVerify(PK, PK + message, signature, cls.DST)", "        return cls._CoreVerify(PK, message + PK, signature, cls.DST)",
+     more=[(CS, "        return cls._CoreSign(SK, PK + message, cls.DST)", "        return cls._CoreSign(SK, message + PK, cls.DST)", 1)], rule="C02.R3")
+case("c02-two-final-exps", "C02", CS, "                    G1,\n                    final_exponentiate=False,", "                    G1,\n                    final_exponentiate=True,")
+case("c02-same-dst-two-suites", "C02", CS, 'SSWU_RO_AUG_"', 'SSWU_RO_NUL_"', rule="C02.R2")
+case("c02-twin-temp-var", "C02", CS, "            return final_exponentiation == FQ12.one()", "            unit = FQ12.one()\n            return unit == final_exponentiation", expect="silent")
+# ---------------------------------------------------------------- C03
+case("c03-aggregate-skips-first", "C03", CS, "        for signature in signatures:\n            signature_point = signature_to_G2(signature)", "        for signature in signatures[1:]:\n            signature_point = signature_to_G2(signature)")
+case("c03-aggregate-seed-not-identity", "C03", CS, "        aggregate = Z2  # Seed with the point at infinity", "        aggregate = G2  # Seed", more=[(CS, "    Z2,\n", "    Z2,\n    G2,\n", 1)], rule="C03.R1")
+case("c03-aggregate-allows-empty", "C03", CS, "        if len(signatures) < 1:\n            raise ValidationError(\"Insufficient number of signatures. (n < 1)\")\n", "", rule="C03.R2")
+case("c03-aggregate-no-len-gate", "C03", CS, "        for signature in signatures:\n            if not cls._is_valid_signature(signature):\n                raise ValidationError(\"Invalid signature\")\n", "", rule="C03.R2")
+case("c03-no-len-eq-gate", "C03", CS, "            if not len(PKs) == len(messages):\n                raise ValidationError(\"Inconsistent number of PKs and messages\")\n", "", rule="C03.R3")
+case("c03-aug-no-len-gate", "C03", CS, "        if len(PKs) != len(messages):\n            return False\n        messages = [", "        messages = [", rule="C03.R3")
+case("c03-no-n-ge-1", "C03", CS, "            # Preconditions\n            if len(PKs) < 1:\n                raise ValidationError(\"Insufficient number of PKs. (n < 1)\")\n\n            # Procedure\n            signature_point", "            # Procedure\n            signature_point", rule="C03.R4")
+case("c03-basic-no-distinct", "C03", CS, "        if len(messages) != len(set(messages)):  # Messages are not unique\n            return False\n", "", rule="C03.R4")
+case("c03-sig-factor-in-loop", "C03", CS,
+     "                aggregate *= pairing(\n                    message_point, pubkey_point, final_exponentiate=False\n                )\n            aggregate *= pairing(signature_point, neg(G1), final_exponentiate=False)",
+     "                aggregate *= pairing(\n                    message_point, pubkey_point, final_exponentiate=False\n                )\n                aggregate *= pairing(signature_point, neg(G1), final_exponentiate=False)", rule="C03.R5")
+case("c03-aggpks-empty-ok", "C03", CS, "        if len(PKs) < 1:\n            raise ValidationError(\"Insufficient number of PKs. (n < 1)\")\n\n        aggregate = Z1", "        aggregate = Z1",
+     more=[(CS, "            # Preconditions\n            if len(PKs) < 1:\n                raise ValidationError(\"Insufficient number of PKs. (n < 1)\")\n\n            # Procedure\n            aggregate_pubkey", "            # Procedure\n            aggregate_pubkey", 1)])
+case("c03-twin-add-order", "C03", CS, "            aggregate = add(aggregate, signature_point)", "            aggregate = add(signature_point, aggregate)", expect="silent")
+case("c03-twin-distinct-form", "C03", CS, "        if len(messages) != len(set(messages)):", "        if len(set(messages)) < len(messages):", expect="silent")
